@@ -443,7 +443,7 @@ This part is the loop inside that statement, line by line, for a coroutine that 
             return future.result(timeout=wait)
         except concurrent.futures.TimeoutError:
             if future.done():
-                raise
+                return future.result()      # since /repo ea90e75 (before: `raise`, see Witness/C20Raise.lean)
             if deadline is not None and time.monotonic() >= deadline:
                 raise
             if not self._thread.is_alive() and not future.done():
@@ -452,9 +452,11 @@ This part is the loop inside that statement, line by line, for a coroutine that 
 
 On Python >= 3.11 `concurrent.futures.TimeoutError is asyncio.TimeoutError is TimeoutError` (and `socket.timeout`): the
 `except` clause also catches a TimeoutError that `future.result()` re-raises because the COROUTINE ended with it
-(`asyncio.wait_for(session.receive_msg(), t)` against a silent peer).  `future.done()` is then true and `raise` hands the
-coroutine's own exception on.  What the environment contributes to one pass of the loop is a `Pass` record; the thread
-scheduler, the clock and the loop thread are not modelled, every sequence of `Pass` records is allowed. -/
+(`asyncio.wait_for(session.receive_msg(), t)` against a silent peer).  `future.done()` is then true and the handler hands out
+the finished future's own outcome with one more `future.result()` (a finished future never waits): the coroutine's value, or
+its own exception - which, raised inside the handler, leaves `_wait_for`; never the expiry of the slice.  What the environment
+contributes to one pass of the loop is a `Pass` record; the thread scheduler, the clock and the loop thread are not
+modelled, every sequence of `Pass` records is allowed. -/
 
 /-- exception classes, as far as the two `except` clauses and the caller can tell them apart -/
 inductive Exc where
@@ -513,11 +515,18 @@ def passStep (fin : Fin) (p : Pass) : Option Res :=
   | .raised e =>
     if e.isTimeout then
       -- except concurrent.futures.TimeoutError:   (the slice's expiry OR the coroutine's own TimeoutError)
-      if p.completes || p.doneAtCheck then some (.raised e)                       -- if future.done(): raise
-      else if p.deadline then some (.raised e)                                     -- deadline reached: raise
+      if p.completes || p.doneAtCheck then some (deliver fin)                      -- if future.done(): return future.result()
+      else if p.deadline then some (.raised e)                                     -- deadline reached: raise  (e = the expiry)
       else if !p.alive && !p.doneAtCheck2 then some (.raised .state)               -- future.cancel(); raise StateError
       else none
     else some (.raised e)                                                          -- any other exception: not caught here
+
+/-- `future.result` calls made in one pass: the sliced one, and one more when the handler finds the future done -/
+def pollsIn (fin : Fin) (p : Pass) : Nat :=
+  let r : Res := if p.completes then deliver fin else .raised .expiry
+  match r with
+  | .returned => 1
+  | .raised e => if e.isTimeout && (p.completes || p.doneAtCheck) then 2 else 1
 
 /-- this pass ends the loop, whatever the coroutine's outcome is (`Props/C20Raise.C20_wait_continues_iff`) -/
 def Pass.ends (p : Pass) : Bool := p.completes || p.doneAtCheck || p.deadline || (!p.alive && !p.doneAtCheck2)
@@ -540,6 +549,14 @@ def passesUsed (fin : Fin) : List Pass → Nat
     match passStep fin p with
     | some _ => 1
     | none => 1 + passesUsed fin ps
+
+/-- `future.result` calls `_wait_for` makes until it leaves the loop (or the passes run out) -/
+def pollsUsed (fin : Fin) : List Pass → Nat
+  | [] => 0
+  | p :: ps =>
+    match passStep fin p with
+    | some _ => pollsIn fin p
+    | none => pollsIn fin p + pollsUsed fin ps
 
 /-- `execute(underlying, timeout)`:
       self._must_be_active();  if not iscoroutine(underlying): raise ValueError
